@@ -29,7 +29,13 @@ Inductive case :=
         (backend : list uobs) (urecv : list uobs)
 (* whole system.  [phase] of a send: 0 before / 1 while / 2 after the replacement of the work
    connection; phases 0 and 2 must arrive, phase 1 may be lost *)
-| CSys (variant : Z) (nusers : Z) (sends : list (Z * Z * bytes)) (backend : list uobs) (urecv : list uobs).
+| CSys (variant : Z) (nusers : Z) (sends : list (Z * Z * bytes)) (backend : list uobs) (urecv : list uobs)
+(* queue-full: nobody drains sendCh while k > 1024 eight-byte datagrams (payload i = "C3", user i mod 2,
+   sequence i) arrive at ForwardUserConn; then the pipeline drains.  Observed: indices seen at the
+   backend (in order) and reply indices seen by each of the two users (payloads checked by the driver) *)
+| CFull (bufsize k : Z) (users : list uaddr) (backend_idx user0_idx user1_idx : list Z)
+(* the capacities of the channels the code creates (every make(chan ..., N) of the four proxy/visitor files) *)
+| CCap (caps : list Z).
 
 Definition opt_uaddr_eqb (a b : option uaddr) : bool :=
   match a, b with
@@ -160,6 +166,16 @@ Definition group_by_user (n : nat) (l : list (Z * bytes)) : list (Z * bytes) :=
 
 Definition obs_pairs (l : list uobs) : list (Z * bytes) := map (fun o => (o_where o, o_data o)) l.
 
+Definition full_payload (u i : Z) : bytes := [x43; x33] ++ be 2 u ++ be 4 i.
+Definition full_drops (tr : list uout) : Z :=
+  count_if (fun o => match o with ODropFwd DSendFull _ => true | _ => false end) tr.
+Fixpoint zlist_eqb (a b : list Z) : bool :=
+  match a, b with
+  | [], [] => true
+  | x :: a', y :: b' => (x =? y) && zlist_eqb a' b'
+  | _, _ => false
+  end.
+
 (* 0 = agrees; otherwise a reason code *)
 Definition check_case (c : case) : Z :=
   match c with
@@ -233,6 +249,25 @@ Definition check_case (c : case) : Z :=
         end
   | CSys variant nusers sends backend urecv =>
       C03_holds nusers (forallb (fun s => match s with (_, ph, _) => ph =? 0 end) sends) sends backend urecv
+  | CFull bufsize k users bidx u0 u1 =>
+      let cfg := {| uc_buf := bufsize |} in
+      let '(st0, _) := ustep cfg uinit EWorkConnReplaced in
+      let burst := map (fun i => let i := Z.of_nat i in (i mod 2, full_payload (i mod 2) i)) (seq 0 (Z.to_nat k)) in
+      match run_burst cfg users st0 burst with
+      | None => 30
+      | Some (st, tr) =>
+          let idx_of := fun d : bytes => rdu (skipn 4 d) 0 in
+          let mb := map (fun p => idx_of (snd p)) (model_backend tr) in
+          let mu := model_user users tr in
+          let mu0 := map (fun p => idx_of (uxf (snd p))) (filter (fun p => fst p =? 0) mu) in
+          let mu1 := map (fun p => idx_of (uxf (snd p))) (filter (fun p => fst p =? 1) mu) in
+          if negb (zlist_eqb mb bidx) then 41
+          else if negb (zlist_eqb mu0 u0 && zlist_eqb mu1 u1) then 42
+          else if negb (full_drops tr =? k - uqcap) then 43
+          else if negb (forallb (fun o => match o with ODropFwd DSendFull _ => true | ODropFwd _ _ | ODropRev _ _ => false | _ => true end) tr) then 44
+          else 0
+      end
+  | CCap caps => if forallb (fun n => n =? uqcap) caps && (4 <=? Z.of_nat (length caps)) then 0 else 45
   end.
 
 Definition is_pkt (c : case) : bool := match c with CPkt _ _ _ _ _ _ _ _ _ => true | _ => false end.
@@ -241,6 +276,8 @@ Definition is_oversize (c : case) : bool :=
 Definition is_dec_err (c : case) : bool := match c with CDec _ false _ => true | _ => false end.
 Definition is_fwd (c : case) : bool := match c with CFwd _ _ _ _ _ => true | _ => false end.
 Definition is_idle (c : case) : bool := match c with CIdle _ _ _ _ _ _ _ => true | _ => false end.
+Definition is_full (c : case) : bool := match c with CFull _ _ _ _ _ _ => true | _ => false end.
+Definition is_cap (c : case) : bool := match c with CCap _ => true | _ => false end.
 Definition is_sys (c : case) : bool := match c with CSys _ _ _ _ _ => true | _ => false end.
 (* sockets the model created in the CFwd cases (the per-user map was exercised) *)
 Definition fwd_sockets (c : case) : Z :=
